@@ -9,7 +9,7 @@ RULE = ("pools of fragments handed to clone.CircularLigate, and parts handed to 
         "inserts up to 500 (thorough: 2000) bases; a 300-base backbone followed by short alternatives and a decoy; one circular carrier at "
         "EVERY rotation); every pool of <= N fragments over three overhangs for three overhang alphabets (plain / with a "
         "reverse-complement pair / with a palindrome) (exhaustive); pools whose overhangs close cycles that exclude the seed (<= 6 "
-        "fragments, 10 s deadline per call); duplicated fragments; palindromic overhangs; self-closing and both-way fragments; random "
+        "fragments, 10 s deadline per request of four calls); duplicated fragments; palindromic overhangs; self-closing and both-way fragments; random "
         "pools. The verdict is decided from the pool (Spec.Rings.designed), not from the generator's label. non-trivial = at least two "
         "fragments and at least one ring; distinct by case text")
 EXHAUSTIVE = {"quick": False, "thorough": True}
@@ -30,8 +30,9 @@ ASSUMPTIONS = ["fragments and parts are ACGT (parts in either case; CutWithEnzym
                "assumption the result of the real code depends on the strand a fragment is written on "
                "(CircularLigate([{ACC,AATG,AATT},{GGT,CATT,AATT}]) returns 0 constructs, the same tube with the second fragment on its other "
                "strand returns 1): recorded in notes/findings/C09.md, classes '+pal' / 'missing-ring:pal'",
-               "'exactly' is claimed as an equality for designed assemblies (Spec.Rings.designed: ACGT, no self-complementary overhang, among "
-               "the oriented fragments that are not dead ends the forward overhang determines the reverse overhang); for every pool the exact "
+               "'exactly' is claimed as an equality for designed assemblies (Spec.Rings.designed: ACGT; among the oriented fragments that "
+               "survive the pruning of dead ends to the fixpoint — decoys of any shape: single, chained, sharing their dead end or their lead-in, "
+               "palindromic, digest by-products — no junction overhang is self-complementary and the forward overhang determines the reverse overhang); for every pool the exact "
                "set returned is characterised by ligate_exact (rings closed at the first return to the seed's forward overhang)"]
 PARTIAL = ["ligate_complete ('none missing') is proved for SIMPLE rings (junction overhangs pairwise distinct and non-palindromic, every fragment "
            "in either orientation). A designed assembly also has non-simple rings (multi-lap concatemers of alternatives: a strict 2x2 design "
@@ -43,8 +44,8 @@ PARTIAL = ["ligate_complete ('none missing') is proved for SIMPLE rings (junctio
            "ligate_schedule / ligate_terminates: theorems about ALL runs of the hand-transcribed Step system (Model/Ligate.lean), bounded "
            "by a variant (no fairness needed); only 'delivered => permutation of the sends' is proved, not that every permutation "
            "occurs; data races are not expressible and are covered only by the GOMAXPROCS 1/2/16 and -race runs (a sample of the cases, "
-           "20 repetitions each, in both tiers; the 6x3 library under -race in the thorough tier)",
-           "termination on the real code is observed under a 10 s deadline on cyclic pools of <= 6 fragments (the recursion tree is "
+           "20 repetitions each, in both tiers; one 6x3 library 20 times per GOMAXPROCS value under -race in the thorough tier)",
+           "termination on the real code is observed under a 10 s deadline per request (four calls) on cyclic pools of <= 6 fragments (the recursion tree is "
            "factorial in the pool size); beyond that it is proved for the model only"]
 TECHNIQUE = ("Lean 4 proof about a model of the spawn tree and of the goroutine system (invariant + variant over all interleavings); "
              "independent ring spec with a decidable 'designed assembly' predicate; differential correspondence incl. GOMAXPROCS variants "
@@ -61,14 +62,18 @@ LEVEL_TEXT = ("Kernel-checked theorems about the model for pools of every size (
               "exhausted, depth <= |pool|, every run bounded by a variant). The model is tied to clone.CircularLigate / clone.GoldenGate by "
               "correspondence on every generated pool in four input orders, compared as sets of canonical forms computed in Lean from the "
               "returned sequences; every real result is judged against an independent enumeration of the rings — equality with the simple "
-              "rings whenever the pool is a designed assembly (decided from the pool), simple <= result <= all otherwise —, the Circular flag "
+              "rings whenever the pool is a designed assembly (decided from the pool), simple <= result <= one-lap rings (the class of ligate_exact, "
+              "enumerated independently of the model) and, up to nine fragment values, <= all rings otherwise —, the Circular flag "
               "of every returned part, GoldenGate additionally against an independent layout of the parts (several fragments per carrier, extra "
               "sites, every rotation of a circular carrier) and as CircularLigate of the real cuts.")
 LEVEL_NOTE = ("Trusted: Lean kernel; harness + driver; the Go runtime is represented by an interleaving semantics transcribed by hand from "
               "clone.go 264-343 (races not expressible; a change of the goroutine structure is seen only by the GOMAXPROCS 1/2/16 and -race "
               "runs on a sample of cases, 20 repetitions each); BLAKE3 collision-freeness; C12 for the least rotation. Palindromic junction "
               "overhangs are excluded by assumption. After three calls that do not return within the deadline the harness stops executing the "
-              "remaining cases of the run (they are reported as not run, the three timeouts are the failing inputs).")
+              "remaining cases of the run: only in-quantifier requests are counted, the record lives in build/C09 keyed by the check process and "
+              "its start time and is removed when the run begins and ends; a not-run reply that does not name three in-quantifier hung requests "
+              "is judged FAIL. The ring walks are cross-checked against brute force on pools of <= 5 values, and of 6 / 7 values in the bf6 / bf7 "
+              "case families. A race report is attributed to the request that notices it, which can be the one after the racy call.")
 HARNESS_BIN = "run-clone"
 EXTRACT_BINS = []
 TIMEOUT_MS = 10000
@@ -142,15 +147,30 @@ def design(r, k, maxalt, strict=True, pal=0, decoys=0, avoid=(), minseq=0, budge
             prod *= a
         if prod * sum(alts) <= budget:
             break
-    ohs = overhangs(r, k + decoys, strict, pal)
+    ohs = overhangs(r, k + 2 * decoys, strict, pal)
     ring, extra = [], []
     for j in range(k):
         for _ in range(alts[j]):
             ring.append((seqword(r, minseq, 12, avoid), ohs[j], ohs[(j + 1) % k]))
+    w = lambda: seqword(r, minseq, 12, avoid)
     for d in range(decoys):
-        a = r.choice(ohs[:k])
-        b = ohs[k + d]
-        extra.append((seqword(r, minseq, 12, avoid), a, b) if r.random() < 0.5 else (seqword(r, minseq, 12, avoid), b, a))
+        a, a2 = r.choice(ohs[:k]), r.choice(ohs[:k])
+        y, z = ohs[k + 2 * d], ohs[k + 2 * d + 1]
+        shape = r.choice(["out", "in", "shared-dead-end", "shared-lead-in", "chain", "chain-in", "pal-dead-end"])
+        if shape == "out":
+            extra.append((w(), a, y))
+        elif shape == "in":
+            extra.append((w(), y, a))
+        elif shape == "shared-dead-end":      # two decoys ending in the same unknown overhang
+            extra += [(w(), a, y), (w(), a2, y)]
+        elif shape == "shared-lead-in":       # two decoys starting with the same unknown overhang
+            extra += [(w(), y, a), (w(), y, a2)]
+        elif shape == "chain":                # a part of another cloning position behind a decoy
+            extra += [(w(), a, y), (w(), y, z)]
+        elif shape == "chain-in":
+            extra += [(w(), z, y), (w(), y, a)]
+        else:                                 # the dead end is a palindrome
+            extra.append((w(), a, r.choice(["AATT", "ACGT", "GATC", "TGCA", "CCGG", "TTAA"])))
     return ring, extra
 
 
@@ -312,7 +332,19 @@ def behind_backbone(r, avoid=(), backbone=300):
     return ring, extra
 
 
+def _clear_breaker():
+    """remove this run's circuit-breaker file (harness/cmd/run-clone/ops_c09.go: <build>/C09/hangs-<pid of check>-<start time>)"""
+    import os, glob
+    build = os.path.join(os.path.dirname(os.path.dirname(os.path.abspath(__file__))), "build", "C09")
+    for f in glob.glob(os.path.join(build, "hangs-%d-*" % os.getpid())):
+        try:
+            os.remove(f)
+        except OSError:
+            pass
+
+
 def cases(seed, tier):
+    _clear_breaker()
     r = rng(seed, "C09")
     quick = tier == "quick"
     # --- exhaustive small pools
@@ -344,6 +376,33 @@ def cases(seed, tier):
             ring, extra = design(r, min(k, 4), 2, strict=False, decoys=r.choice([0, 1]), budget=60)
             ring = ring[:7]
         yield lig_case(r, "design" if strict else "design-loose", with_flips(r, ring + extra))
+    # brute-force cross-check of the ring walks on pools of 7 fragment values (the driver raises its bound for the tag)
+    for i in range(1 if quick else 12):
+        ring, extra = design(r, r.randint(2, 4), 2, strict=r.random() < 0.7, decoys=r.choice([0, 1]), budget=100)
+        frags = with_flips(r, (ring + extra)[:7])
+        yield lig_case(r, "bf7", frags)
+    for i in range(12 if quick else 300):
+        kind = r.choice(["design", "random", "cycle"])
+        if kind == "design":
+            ring, extra = design(r, r.randint(1, 4), 3, strict=r.random() < 0.7, decoys=r.choice([0, 1, 2]), budget=100)
+            frags = with_flips(r, (ring + extra)[:6])
+        else:
+            ohs = overhangs(r, r.randint(2, 3), strict=r.random() < 0.6, pal=r.choice([0, 0, 1]))
+            if kind == "random" and r.random() < 0.5:
+                ohs = ohs + [rc(o) for o in ohs if rc(o) != o]
+            frags = with_flips(r, [(seqword(r, 0, 6), r.choice(ohs), r.choice(ohs)) for _ in range(6)], 0.3)
+        yield lig_case(r, "bf6-" + kind, frags)
+    # libraries that are NOT designed assemblies (a backward fragment) with more than nine fragment values: the set of all
+    # rings is not enumerated, the one-lap rings (ligate_exact) are the upper bound
+    for i in range(3 if quick else 40):
+        k = r.randint(3, 4)
+        ring, extra = design(r, k, 3, strict=True, decoys=r.choice([1, 2]), budget=400)
+        back = r.randrange(k)
+        ring.append((seqword(r, 2, 10), ring[0][1] if back == 0 else ring[-1][1], ring[0][1]))
+        j1, j2 = r.sample(range(len(ring)), 2)
+        ring.append((seqword(r, 2, 10), ring[j1][2], ring[j2][1]))
+        if len(set(ring + extra)) > 9:
+            yield lig_case(r, "library-backward", with_flips(r, ring + extra))
     # a 3-junction, 2-alternative library (also run under the race detector in the quick tier)
     ohs = overhangs(r, 3)
     yield lig_case(r, "lib-3x2", with_flips(r, [(seqword(r, 2, 10), ohs[j], ohs[(j + 1) % 3]) for j in range(3) for _ in range(2)]))
@@ -485,7 +544,7 @@ def extra_runs(seed, tier, case_lines):
     the given order, so n repetitions of a line = n executions of the identical input plus 3n on its shuffles)."""
     import os
     r = rng(seed, "C09-extra")
-    pick = [l for l in case_lines if not _tag(l)[1].startswith(("ood", "small", "design-6x3"))]
+    pick = [l for l in case_lines if not _tag(l)[1].startswith(("ood", "small", "design-6x3", "bf"))]
     small = [l for l in case_lines if _tag(l)[1].startswith("small")]
     by_tag = lambda t: [l for l in case_lines if _tag(l)[1] == t]
     logdir = os.path.join(os.path.dirname(os.path.dirname(os.path.abspath(__file__))), "build", "C09")
@@ -498,10 +557,12 @@ def extra_runs(seed, tier, case_lines):
         for g in ("1", "2", "16"):
             yield ("gomaxprocs" + g, sub + by_tag("design-6x3"), {"GOMAXPROCS": g}, False)
         handful = by_tag("lib-3x2")[:1] + by_tag("backbone")[:1] + by_tag("cycle")[:1] + \
-            [l for l in moderate if l.startswith("gg")][:2] + r.sample(small, min(2, len(small)))
+            [l for l in moderate if l.startswith("gg")][:1] + r.sample(small, min(1, len(small)))
         for g in ("1", "2", "16"):
             yield ("race" + g, handful * 20, race_env(g), True)
-    else:
+        _clear_breaker()
+        return
+    if True:
         sub = r.sample(pick, min(300, len(pick))) + r.sample(small, min(100, len(small)))
         for g in ("1", "2", "16"):
             yield ("gomaxprocs" + g, (sub + by_tag("design-6x3")) * 3, {"GOMAXPROCS": g}, False)
@@ -509,4 +570,6 @@ def extra_runs(seed, tier, case_lines):
         big = [l for l in by_tag("design-6x3") if l.startswith("lig")]
         for g in ("1", "2", "16"):
             yield ("race" + g, rsub * 20, race_env(g), True)
-            yield ("race6x3-" + g, big * 2, race_env(g), True)
+            yield ("race6x3-" + g, big[:1] * 20 + big[1:] * 2, race_env(g), True)
+    # the last extra run has been judged: the run is over
+    _clear_breaker()
